@@ -472,8 +472,10 @@ Definition changes_only (evs : list hev) : list hev :=
 Fixpoint nodupb {A} (eqb : A -> A -> bool) (l : list A) : bool :=
   match l with [] => true | x :: r => andb (negb (existsb (eqb x) r)) (nodupb eqb r) end.
 
+Definition str2_eqb (a b : string * string) : bool := andb (String.eqb (fst a) (fst b)) (String.eqb (snd a) (snd b)).
+Definition zstr2_eqb (a b : Z * (string * string)) : bool := andb (Z.eqb (fst a) (fst b)) (str2_eqb (snd a) (snd b)).
 Definition wf_attrsb (l : list rattr) : bool :=
-  andb (nodupb String.eqb (map ra_eid l)) (forallb (fun a => nodupb Z.eqb (map (@fst Z string) (ra_vals a))) l).
+  andb (nodupb str2_eqb (map attr_key l)) (forallb (fun a => nodupb Z.eqb (map (@fst Z string) (ra_vals a))) l).
 Definition wf_enumb (e : sigenum) : bool := nodupb Z.eqb (map ev_index (se_values e)).
 Fixpoint wf_sigb (s : rsig) : bool :=
   match s with
@@ -483,13 +485,67 @@ Fixpoint wf_sigb (s : rsig) : bool :=
   end.
 Definition wf_msgb (m : rmsg) : bool :=
   andb (wf_attrsb (rm_attrs m))
-    (andb (nodupb String.eqb (map rr_eid (rm_recv m)))
+    (andb (nodupb str2_eqb (map recv_key (rm_recv m)))
        (andb (forallb (fun rc => wf_attrsb (rr_attrs rc)) (rm_recv m)) (forallb wf_sigb (rm_sigs m)))).
 Definition wf_nifb (x : rnif) : bool :=
   andb (wf_attrsb (rn_attrs x))
-    (andb (nodupb String.eqb (map rm_eid (rn_msgs x))) (forallb wf_msgb (rn_msgs x))).
+    (andb (nodupb zstr2_eqb (map msg_key (rn_msgs x))) (forallb wf_msgb (rn_msgs x))).
 Definition wf_busb (b : rbus) : bool :=
   andb (wf_attrsb (rb_attrs b))
     (andb (nodupb Z.eqb (map rn_id (rb_nifs b))) (forallb wf_nifb (rb_nifs b))).
 Definition wf_netb (r : rnet) : bool :=
   andb (nodupb String.eqb (map rb_name (rt_buses r))) (forallb wf_busb (rt_buses r)).
+
+(* ---------------------------------------------------------------- entity ids erased *)
+(* Two builds of one specification have different (random) entity ids.  [erase_net] forgets them:
+   what remains identifies every entity by its handle. *)
+Definition erase_attr (a : rattr) : rattr :=
+  {| ra_h := ra_h a; ra_name := ra_name a; ra_eid := EmptyString; ra_vals := ra_vals a |}.
+Definition erase_recv (r : rrecv) : rrecv :=
+  {| rr_h := rr_h r; rr_name := rr_name r; rr_eid := EmptyString; rr_num := rr_num r; rr_id := rr_id r;
+     rr_attrs := map erase_attr (rr_attrs r) |}.
+Fixpoint erase_sig (s : rsig) : rsig :=
+  match s with
+  | RStd h a n d r ty un => RStd h (map erase_attr a) n d r ty un
+  | REnum h a n d r sz en => REnum h (map erase_attr a) n d r sz en
+  | RMux h a n d r gc gs fx groups => RMux h (map erase_attr a) n d r gc gs fx (map (map erase_sig) groups)
+  end.
+Definition erase_msg (m : rmsg) : rmsg :=
+  {| rm_h := rm_h m; rm_eid := EmptyString; rm_attrs := map erase_attr (rm_attrs m);
+     rm_recv := map erase_recv (rm_recv m); rm_name := rm_name m; rm_desc := rm_desc m;
+     rm_static := rm_static m; rm_canid := rm_canid m; rm_id := rm_id m; rm_size := rm_size m;
+     rm_byteorder := rm_byteorder m; rm_cycle := rm_cycle m; rm_sigs := map erase_sig (rm_sigs m) |}.
+Definition erase_nif (x : rnif) : rnif :=
+  {| rn_h := rn_h x; rn_attrs := map erase_attr (rn_attrs x); rn_name := rn_name x; rn_desc := rn_desc x;
+     rn_id := rn_id x; rn_msgs := map erase_msg (rn_msgs x) |}.
+Definition erase_bus (b : rbus) : rbus :=
+  {| rb_h := rb_h b; rb_attrs := map erase_attr (rb_attrs b); rb_builder := rb_builder b; rb_name := rb_name b;
+     rb_desc := rb_desc b; rb_baud := rb_baud b; rb_nifs := map erase_nif (rb_nifs b) |}.
+Definition erase_net (r : rnet) : rnet :=
+  {| rt_name := rt_name r; rt_desc := rt_desc r; rt_buses := map erase_bus (rt_buses r) |}.
+
+(* the exports with the ids forgotten (Markdown never shows an id) *)
+Definition save_noids (o : oracle) (r : rnet) : list ev := save_skel (erase_net (walk o r)).
+Definition dbc_noids (o : oracle) (r : rnet) : list (list ev) := map dbc_skel (rt_buses (erase_net (walk o r))).
+
+(* ---------------------------------------------------------------- model-level mutators *)
+(* the changes of the history leg that move an entity in a sorted getter: Bus.UpdateName,
+   Node.UpdateID, Message.UpdateID / SetStaticCANID (the other generated changes - renaming nodes,
+   messages, signals, types, units, enums, priorities, cycle times - rewrite scalars that are in no
+   sort key of this model; removing and re-adding an interface / a receiver permutes a map-like list) *)
+Definition mut_bus_name (h : N) (new : string) (r : rnet) : rnet :=
+  {| rt_name := rt_name r; rt_desc := rt_desc r;
+     rt_buses := map (fun b => if N.eqb (rb_h b) h
+                               then {| rb_h := rb_h b; rb_attrs := rb_attrs b; rb_builder := rb_builder b; rb_name := new;
+                                       rb_desc := rb_desc b; rb_baud := rb_baud b; rb_nifs := rb_nifs b |}
+                               else b) (rt_buses r) |}.
+Definition set_nif_id (h : N) (new : Z) (x : rnif) : rnif :=
+  if N.eqb (rn_h x) h
+  then {| rn_h := rn_h x; rn_attrs := rn_attrs x; rn_name := rn_name x; rn_desc := rn_desc x; rn_id := new;
+          rn_msgs := rn_msgs x |}
+  else x.
+Definition mut_node_id (h : N) (new : Z) (r : rnet) : rnet :=
+  {| rt_name := rt_name r; rt_desc := rt_desc r;
+     rt_buses := map (fun b => {| rb_h := rb_h b; rb_attrs := rb_attrs b; rb_builder := rb_builder b; rb_name := rb_name b;
+                                  rb_desc := rb_desc b; rb_baud := rb_baud b;
+                                  rb_nifs := map (set_nif_id h new) (rb_nifs b) |}) (rt_buses r) |}.
